@@ -29,6 +29,13 @@ def world(n_chr):
         g["id"] = gren.get(g["id"], g["id"])
         for t in g["transcripts"]:
             t["id"] = ren.get(t["id"], t["id"])
+    # exons and introns shared by several genes (an overlapping same-strand gene and an antisense gene): their gene lists are
+    # built from sets of gene ids
+    from vlib import worlds as W
+    last = "chr%d" % n_chr
+    w["genes"].append(W.locus_gene("GS", last, "+", 1000, {"TS_1": [2, 3, 4]}))
+    w["genes"].append(W.locus_gene("GX", last, "-", 1000, {"TX_1": [1, 2]}))
+    w["genes"].append(W.locus_gene("AA", last, "+", 1000, {"TAA_1": [3, 4, 5]}))
     return w
 
 
